@@ -4,6 +4,7 @@ import (
 	"errors"
 	"fmt"
 	"go/ast"
+	"go/build/constraint"
 	"go/constant"
 	"go/parser"
 	"go/token"
@@ -83,6 +84,18 @@ func (p *Parser) ParseFile(filename string, varPool *VarPool) (*MetaData, []*Bui
 			Path: pkg.PkgPath,
 		},
 		Imports: make(map[string]*Import, len(pkg.Imports)),
+	}
+
+	// The output belongs to the same build configurations as its source.
+	for _, group := range astFile.Comments {
+		if group.Pos() >= astFile.Package {
+			break
+		}
+		for _, c := range group.List {
+			if constraint.IsGoBuild(c.Text) {
+				metaData.BuildConstraint = c.Text
+			}
+		}
 	}
 
 	slog.Debug("kessoku package", "kessokuPkg", kessokuPkg)
@@ -642,9 +655,9 @@ type parseProviderTypeResult struct {
 	IsReturnError bool
 	// ErrorIndex is the position of the error among the provider's results (IsReturnError only).
 	ErrorIndex int
-	IsAsync       bool
-	IsStruct      bool
-	IsVariadic    bool
+	IsAsync    bool
+	IsStruct   bool
+	IsVariadic bool
 }
 
 func (p *Parser) parseProviderType(pkg *packages.Package, providerType types.Type, varPool *VarPool) (*parseProviderTypeResult, error) {
